@@ -491,7 +491,7 @@ def run(ck: Check):
         ck.cover(evaluations=len(reqs))
 
     # -- written files: file stream + oracle, then raw stream from the same items
-    nfiles = 60 if ck.quick else 1500
+    nfiles = 150 if ck.quick else 1500
     per_file = 14
     plan = []
     ss = small_scope()
@@ -582,7 +582,7 @@ def run(ck: Check):
                         ck.fail(rcase, "DalvikCode consumed a different number of bytes than the code item has "
                                 "(padding rule)", None, len(item), info[1])
             if tries:
-                nlists = len({json.dumps([t[2], t[3]]) for t in tries}) if shared else len(tries)
+                nlists = len({json.dumps([t[2], t[3]]) for t in index_tries(tries, types)}) if shared else len(tries)
                 hl = code.get_handlers()
                 if hl is None or hl.get_size() != nlists or len(hl.get_list()) != nlists:
                     ck.fail(case, "DalvikCode.get_handlers() does not hold the encoded handler lists", None, nlists,
